@@ -82,6 +82,7 @@ type State struct {
 	reached  []string
 	observed []string
 	steps    int
+	maxSteps int
 	seq, sub int
 	onceDone map[string]bool
 	expectPanic bool
